@@ -506,12 +506,18 @@ type Axiom struct {
 	Line int
 }
 
+type EnumVar struct {
+	Name   string
+	Lo, Hi int
+}
+
 type Lemma struct {
 	Name     string
 	Params   []Param
 	Clauses  []*Clause
 	Props    []string
-	Induct   string // induction variable (hypothesis at value-1)
+	Induct   string    // induction variable (hypothesis at value-1)
+	Enum     []EnumVar // parameters enumerated over a finite range (exhaustive = complete)
 	Triggers []Expr
 	TrigText string
 	File     string
@@ -795,6 +801,20 @@ func (ss *SpecSet) parseSpecText(file, pkgPath, text string) {
 			if curLemma != nil {
 				curLemma.Induct = strings.TrimSpace(rest)
 			}
+		case "enumerate":
+			// //@ enumerate a 0 30
+			if curLemma != nil {
+				fs := strings.Fields(rest)
+				if len(fs) == 3 {
+					lo, e1 := strconv.Atoi(fs[1])
+					hi, e2 := strconv.Atoi(fs[2])
+					if e1 == nil && e2 == nil {
+						curLemma.Enum = append(curLemma.Enum, EnumVar{fs[0], lo, hi})
+						continue
+					}
+				}
+				errf(ln, "bad enumerate clause")
+			}
 		case "trigger":
 			if curLemma != nil {
 				curLemma.TrigText = rest
@@ -825,6 +845,27 @@ func (ss *SpecSet) parseSpecText(file, pkgPath, text string) {
 				errf(ln, "%s outside a contract", word)
 				continue
 			}
+			last = cl
+		case "closure":
+			// //@ closure K captures E : obligation at the K-th closure creation of the function;
+			// free-variable names of the closure denote the captured values
+			finish()
+			if cur == nil {
+				errf(ln, "closure clause outside a contract")
+				continue
+			}
+			fs := strings.SplitN(rest, " ", 3)
+			if len(fs) < 3 || fs[1] != "captures" {
+				errf(ln, "bad closure clause")
+				continue
+			}
+			n, err := strconv.Atoi(fs[0])
+			if err != nil {
+				errf(ln, "bad closure clause %q", rest)
+				continue
+			}
+			cl := &Clause{Kind: "captures", Loop: n, Text: fs[2], Props: props, Line: ln + 1, File: file}
+			cur.Clauses = append(cur.Clauses, cl)
 			last = cl
 		case "returns":
 			if cur != nil {
